@@ -355,7 +355,9 @@ def punctuation_delete(tree, **params):
                                  'punctuation only\n' % tree.data['sid'])
     else:
         for terminal in removal:
-            tree = trees.delete_terminal(tree, terminal)
+            # delete_terminal returns the lowest remaining ancestor of the
+            # deleted terminal, not the root of the tree
+            trees.delete_terminal(tree, terminal)
         for line in output:
             print(line)
     return tree
